@@ -476,7 +476,8 @@ func c16Gen(r *vfRand, adv bool) c16In {
 		// sometimes several filters in one UNSUBSCRIBE, a never-subscribed one first
 		fs := []string{}
 		if r.Chance(1, 2) {
-			fs = append(fs, r.PickStr("zz/never", "a/b/never", "+/never"))
+			// never subscribed, or malformed (the rest of the packet must still take effect, in the session too)
+			fs = append(fs, r.PickStr("zz/never", "a/b/never", "+/never", "a/#/b", "a/b+", "#/x"))
 		}
 		fs = append(fs, c16Filters[r.Intn(len(c16Filters))])
 		if r.Chance(1, 3) {
